@@ -23,3 +23,4 @@ package process
 //@ modifies procstate
 //@ iface Service.OnGenerate(self, ctx, credentials, account, passphrase, signingThreshold, numParticipants)
 //@ modifies procstate
+//@ ensures [endpoints] result2 == nil ==> (forall i int :: 0 <= i && i < len(result1) ==> result1[i] != nil)
